@@ -260,7 +260,7 @@ func (c11) Eval(t *testing.T, c *Case, dec func(int) *Decider) *Outcome {
 				sc.Cancels = []CancelSpec{{Proc: p, AtYield: 1 + r.Intn(resA.ProcYields[p]+1)}}
 			} else {
 				pt := pts[r.Intn(len(pts))]
-				sc.Faults = []FaultSpec{{Proc: p, Point: pt, Nth: 1 + r.Intn(resA.StepHits[p][pt]), Errno: faultErrnos[r.Intn(len(faultErrnos))]}}
+				sc.Faults = []FaultSpec{{Proc: p, Point: pt, Nth: 1 + r.Intn(resA.StepHits[p][pt]), Errno: faultErrnos[r.Intn(len(faultErrnos))], Mode: r.PickS("", "env", "env")}}
 			}
 		}
 		meta.Injected = true
